@@ -12,11 +12,12 @@ Clean(rs) == SelectSeq([i \in 1..Len(rs) |-> IF i \in LastOfUri(rs) THEN rs[i] E
 MapOf(rs) == LET e == Clean(rs)
              IN SelectSeq(e, LAMBDA x : \A j \in 1..Len(e) : e[j][1] = x[1] => (\A i \in 1..Len(e) : e[i] = x => j <= i))
 UriOfPrefix(rs, p) == IF \E x \in Range(MapOf(rs)) : x[1] = p THEN (CHOOSE x \in Range(MapOf(rs)) : x[1] = p)[2] ELSE "undeclared"
-PrefixOf(f) == CASE f \in {"p|e", "[p|a]"} -> "p" [] f = "q|e" -> "q" [] f = "z|e" -> "z" [] OTHER -> "-"
+\* (a type selector that is the argument of :not() is a namespaced name like any other)
+PrefixOf(f) == CASE f \in {"p|e", "[p|a]", ":not(p|e)"} -> "p" [] f = "q|e" -> "q" [] f = "z|e" -> "z" [] OTHER -> "-"
 ItemOf(rs, f) ==
     CASE f = "*|e" -> [uri |-> "*any*", local |-> "e", kind |-> "explicit"]
       [] f = "|e"  -> [uri |-> "", local |-> "e", kind |-> "explicit"]
-      [] f = "e"   -> [uri |-> Default(MapOf(rs)), local |-> "e", kind |-> "default"]
+      [] f \in {"e", ":not(e)"} -> [uri |-> Default(MapOf(rs)), local |-> "e", kind |-> "default"]
       [] f = "[p|a]" -> [uri |-> UriOfPrefix(rs, "p"), local |-> "a", kind |-> "explicit"]
       [] OTHER -> [uri |-> UriOfPrefix(rs, PrefixOf(f)), local |-> "e", kind |-> "explicit"]
 FormOk(rs, f) == PrefixOf(f) = "-" \/ UriOfPrefix(rs, PrefixOf(f)) # "undeclared"
